@@ -155,6 +155,10 @@ class Type:
         return self.find_field(field, set()) is not None
 
     def add_attr(self, field: str, value):
+        # The class-level `fields` tables are shared by every value of that
+        # type (in this and every later analysis): only write to a copy.
+        if 'fields' not in self.__dict__:
+            self.fields = dict(self.fields)
         self.fields[field] = value
 
     def find_field(self, field: str, seen: set):
